@@ -1389,12 +1389,13 @@ int64_t OPNMIDIplay::calculateChipChannelGoodness(size_t c, const MIDIchannel::N
     {
         const OpnChannel::LocationData &jd = j->value;
 
-        int64_t kon_ms = jd.kon_time_until_neglible_us / 1000;
-        s -= (jd.sustained == OpnChannel::LocationData::Sustain_None) ?
-            (4000000 + kon_ms) : (500000 + (kon_ms / 2));
-
         MIDIchannel::notes_iterator
         k = const_cast<MIDIchannel &>(m_midiChannels[jd.loc.MidCh]).find_activenote(jd.loc.note);
+
+        // A sostenuto mark on a note whose key is still down does not make it a released, pedal-held note
+        int64_t kon_ms = jd.kon_time_until_neglible_us / 1000;
+        s -= (jd.sustained == OpnChannel::LocationData::Sustain_None || !k.is_end()) ?
+            (4000000 + kon_ms) : (500000 + (kon_ms / 2));
 
         if(!k.is_end())
         {
